@@ -4,7 +4,7 @@ pub uninterp spec fn line_count(s: Seq<char>) -> nat;
 pub uninterp spec fn line_start(s: Seq<char>, i: int) -> int;
 /// `get_line_starts`: offset 0 and the offset after every '\n' — all of them character boundaries, increasing
 #[verifier::external_body]
-pub fn get_line_starts(source: &str) -> (r: Vec<usize>)
+pub fn vx_line_starts(source: &str) -> (r: Vec<usize>)
     ensures r@.len() == line_count(source@), r@.len() >= 1,
         forall|i: int| 0 <= i < r@.len() ==> #[trigger] r@[i] == line_start(source@, i) && is_boundary(source@, r@[i] as int),
         forall|i: int, j: int| 0 <= i <= j < r@.len() ==> r@[i] <= r@[j],
